@@ -475,6 +475,10 @@ Definition ex_region (loc : bytes) (s : st) : bool * Z * Z * st :=
 (* ------------------------------------------------------------------------------------------ *)
 (* commands; every one returns (state, return value)                                            *)
 
+(* ex_zero: address 0 (before the first line) is only meaningful for the commands that add text *)
+Definition ex_zero (loc : bytes) (b e : Z) : bool :=
+  (match loc with [] => false | _ => true end) && negb (bytes_eqb loc [37%N]) && (b =? 0) && (e =? 0).
+
 Definition edit (s : st) (t : option bytes) (b e : Z) : st :=
   set_lb s (lbuf_edit t (Z.to_nat b) (Z.to_nat e) (lb s)).
 
@@ -498,7 +502,7 @@ Definition ec_print (loc cmd : bytes) (s : st) : st * Z :=
   if (match cmd, loc with [], [] => true | _, _ => false end) && (slen s <=? xrow s) then (s, 1)
   else
     let '(bad, b, e, s1) := ex_region loc s in
-    if bad then (s1, 1)
+    if bad || ex_zero loc b e then (s1, 1)
     else
       let s2 := print_lines (firstn (Z.to_nat (e - b)) (skipn (Z.to_nat b) (lns (lb s1)))) s1 in
       (set_xrow s2 (Z.max b (e - 1)), 0).
@@ -517,7 +521,7 @@ Definition ec_rs (arg : bytes) (txt : option bytes) (s : st) : st * Z :=
 
 Definition ec_delete (loc arg : bytes) (s : st) : st * Z :=
   let '(bad, b, e, s1) := ex_region loc s in
-  if bad || (slen s1 =? 0) then (s1, 1)
+  if bad || ex_zero loc b e || (slen s1 =? 0) then (s1, 1)
   else
     let s2 := ex_yank s1 (REG arg) b e in
     let s3 := edit s2 None b e in
@@ -525,7 +529,7 @@ Definition ec_delete (loc arg : bytes) (s : st) : st * Z :=
 
 Definition ec_yank (loc arg : bytes) (s : st) : st * Z :=
   let '(bad, b, e, s1) := ex_region loc s in
-  if bad || (slen s1 =? 0) then (s1, 1)
+  if bad || ex_zero loc b e || (slen s1 =? 0) then (s1, 1)
   else (ex_yank s1 (REG arg) b e, 0).
 
 Definition ec_put (loc arg : bytes) (s : st) : st * Z :=
@@ -535,7 +539,7 @@ Definition ec_put (loc arg : bytes) (s : st) : st * Z :=
   | None => (s, 1)
   | Some buf =>
     let '(bad, b, e, s1) := ex_region loc s in
-    if bad then (s1, 1)
+    if bad && (negb (b =? 0) || negb (e =? 0)) then (s1, 1)
     else
       let s2 := edit s1 (Some buf) e e in
       (set_xrow s2 (Z.max 0 (Z.min (slen s2 - 1) (e + slen s2 - n - 1))), 0)
@@ -543,11 +547,11 @@ Definition ec_put (loc arg : bytes) (s : st) : st * Z :=
 
 Definition ec_lnum (loc : bytes) (s : st) : st * Z :=
   let '(bad, b, e, s1) := ex_region loc s in
-  if bad then (s1, 1) else (emit s1 (ONum e), 0).
+  if bad || ex_zero loc b e then (s1, 1) else (emit s1 (ONum e), 0).
 
 Definition ec_mark (loc arg : bytes) (s : st) : st * Z :=
   let '(bad, b, e, s1) := ex_region loc s in
-  if bad then (s1, 1) else (set_lb s1 (lbuf_mark (lb s1) (hd0 arg) (e - 1)), 0).
+  if bad || ex_zero loc b e then (s1, 1) else (set_lb s1 (lbuf_mark (lb s1) (hd0 arg) (e - 1)), 0).
 
 Definition ec_undo (s : st) : st * Z :=
   let '(l, r) := lbuf_undo (lb s) in (set_lb s l, r).
@@ -561,7 +565,7 @@ Definition ec_read (loc arg : bytes) (s : st) : st * Z :=
   let n := slen s in
   let path := match arg with [] => curpath | _ => arg end in
   let '(bad, b, e, s1) := ex_region loc s in
-  if bad then (s1, 1)
+  if bad && (negb (b =? 0) || negb (e =? 0)) then (s1, 1)
   else
     let pos := if slen s1 =? 0 then 0 else e in
     match readfile path with
@@ -584,7 +588,7 @@ Definition ec_exec (loc arg : bytes) (s : st) : st * Z :=
   | [] => (flag s0 F_UNSUP, 1)
   | _ =>
     let '(bad, b, e, s1) := ex_region loc s0 in
-    if bad then (s1, 1)
+    if bad || ex_zero loc b e then (s1, 1)
     else
       let text := lbuf_cp (lb s1) (Z.to_nat b) (Z.to_nat e) in
       match filter arg text with
@@ -930,7 +934,7 @@ Fixpoint glob_loop (fuel : nat) (i : nat) (pat body : bytes) (not : bool) (dep :
 Definition ec_glob (fuel : nat) (loc cmd arg : bytes) (s : st) : st * Z :=
   let loc := match loc, xgdep s with [], O => [37%N] | _, _ => loc end in
   let '(bad, b, e, s1) := ex_region loc s in
-  if bad then (s1, 1)
+  if bad || ex_zero loc b e then (s1, 1)
   else
     let not := mem 33 cmd || (hd0 cmd =? 118)%N in
     let '(pat, body) := re_read arg in
@@ -953,7 +957,7 @@ Definition ec_at (loc arg : bytes) (s : st) : st * Z :=
   | None => (s, 1)
   | Some buf =>
     let '(bad, b, e, s1) := ex_region loc s in
-    if bad then (s1, 1)
+    if bad || ex_zero loc b e then (s1, 1)
     else let '(s2, r) := exec buf (set_xrow s1 b) in (bump s2, r)
   end.
 End Glob.
